@@ -108,7 +108,9 @@ TABLE = {
              "transfers at once; ordinary code runs the new owner nested), ownership objects handed to a helper thread and released "
              "there, one ownership object move-assigned in every round and (variant) one awaiter object awaited again in every round; "
              "invariants MutualExclusion, GrantOnce (grants <= requests, activations <= grants), OnePlace, FIFO, NoLostRequest; replayed "
-             "the same way (helper threads included).",
+             "the same way (helper threads included). In the other direction (code -> spec) random schedules of mixes beyond the dumpable "
+             "bound (5-6 parties, 4 parties x 2-3 rounds with helper threads) are recorded from the real code and validated by TLC as "
+             "behaviours of MutexRounds.tla (MutexRoundsTrace.tla, every invariant evaluated in every state of the trace).",
         note="bounds: 2-4 parties with one round each (Mutex.tla), 2-3 parties with 2-3 rounds (MutexRounds.tla); release by discard / "
              "co_await / destructor on the owning thread or by a helper thread (release through a thread pool not exercised); weak CAS assumed not to fail spuriously; "
              "'resumed while in the act of suspending' is read as double activation (DESIGN 6/C07)",
@@ -185,7 +187,12 @@ TABLE = {
              "ReturnsWhenFinished, StartTerminates. Every edge of every state graph, including calls without effect, is replayed on the real "
              "cocls::scheduler, comparing the array order, every call's return value, the identity and outcome of each completed sleep, "
              "exactly-once resumption of awaiting coroutines, virtual wake-up times and the ready-queue order, with bound-checked std::vector; "
-             "self-deadlock and untimed waits are detected through interposed pthread functions.",
+             "self-deadlock and untimed waits are detected through interposed pthread functions. Every way the header lets a client request "
+             "a sleep - sleep_until, schedule(id,promise,tp), sleep_for with nanosecond/microsecond (64- and 32-bit)/half-millisecond/"
+             "millisecond/second/minute durations, interval(d) - is rotated per call onto the single specification action Schedule(tp) with "
+             "tp = now-at-the-call + d exactly: model time is embedded order-preservingly into the virtual clock's nanosecond resolution with "
+             "sub-millisecond offsets, heap time points and wake times are compared without rounding, and get_expired probes at each time "
+             "point and 1 ns before it, so a sleep scheduled or handed out even one clock unit early diverges.",
         note="bounds: <=3 time points, <=3 identifiers, <=3-5 concurrently pending sleeps, array <=3-6 (histories unbounded); start mode 2-3 coroutines x "
              "<=4-6 commands; thread mode (start_thread) covered by SchedulerThread.tla: worker thread vs one client, <=3 sleeps, scripts of <=6 steps, lock grain + the worker's clock read, virtual time; thread-POOL mode (worker_coro<true>) not covered; TCB: TLC, tools/fastcover.py path cover, the replayer's "
              "projection/audit and its clock/pthread interposition, libstdc++-12 heap algorithms as modelled (a mismatch would diverge)",
